@@ -439,9 +439,10 @@ class kFlowDecomp(pathmodel.AbstractPathModelDAG):
                     # Every covered edge counts as 1 (also when the graph has a length attribute)
                     edge_lengths = {}
                 else:
-                    constraint_length = sum(self.G[u][v].get(self.length_attr, 1) for (u,v) in subpath)
+                    # (as Python numbers, as in the model: sums of fixed-width numpy integers wrap around)
+                    constraint_length = sum(float(self.G[u][v].get(self.length_attr, 1)) for (u,v) in subpath)
                     coverage_fraction = self.subpath_constraints_coverage_length
-                    edge_lengths = {(u,v): self.G[u][v].get(self.length_attr, 1) for (u,v) in subpath}
+                    edge_lengths = {(u,v): float(self.G[u][v].get(self.length_attr, 1)) for (u,v) in subpath}
                 # If the subpath is not covered enough by the greedy decomposition, we return False
                 if gu.max_occurrence(subpath, paths, edge_lengths=edge_lengths) < constraint_length * coverage_fraction:
                     return False
